@@ -34,6 +34,8 @@ def content_of(cls, rng, big):
         return 'caf\xe9 cr\xe8me br\xfbl\xe9e\n'.encode('latin-1'), 'latin-1'
     if cls == 'binary':
         return bytes(range(256)) + b'\x00\xff\r\n\r\x1a', None
+    if cls == 'farcopy':
+        return bytes(rng.randrange(256) for _ in range(12000)) * 2, None
     return bytes(rng.randrange(256) for _ in range(4096)) * (big // 4096), None
 
 
